@@ -91,7 +91,7 @@ func main() {
 			os.Exit(2)
 		}
 		seed, _ := strconv.ParseUint(os.Args[3], 10, 64)
-		g(newRng(seed), os.Args[4], func(s string) { out.WriteString(s); out.WriteByte('\n') })
+		g(newRng(mixSeed(seed)), os.Args[4], func(s string) { out.WriteString(s); out.WriteByte('\n') })
 	case "eval":
 		sc := bufio.NewScanner(os.Stdin)
 		sc.Buffer(make([]byte, 1<<20), 1<<28)
@@ -110,4 +110,13 @@ func main() {
 		fmt.Fprintln(os.Stderr, "unknown mode", os.Args[1])
 		os.Exit(2)
 	}
+}
+
+// mixSeed spreads VERIF_SEED over the state space: newRng's state is linear in its seed and every draw adds the
+// same constant, so the streams of consecutive seeds would be one another shifted by a single draw.
+func mixSeed(seed uint64) uint64 {
+	z := seed + 0x9e3779b97f4a7c15
+	z = (z ^ (z >> 30)) * 0xbf58476d1ce4e5b9
+	z = (z ^ (z >> 27)) * 0x94d049bb133111eb
+	return z ^ (z >> 31)
 }
